@@ -36,12 +36,42 @@ impl Probe {
         Probe { dir, rlib, deps }
     }
 
+    /// newest `lib<krate>-*.rlib` in the harness's deps directory (a dependency of the harness itself)
+    pub fn dep_rlib(&self, krate: &str) -> Option<PathBuf> {
+        let mut best: Option<(std::time::SystemTime, PathBuf)> = None;
+        for e in std::fs::read_dir(&self.deps).ok()? {
+            let p = e.ok()?.path();
+            let name = p.file_name()?.to_string_lossy().to_string();
+            if name.starts_with(&format!("lib{}-", krate)) && name.ends_with(".rlib") {
+                let t = std::fs::metadata(&p).and_then(|m| m.modified()).unwrap_or(std::time::UNIX_EPOCH);
+                if best.as_ref().map(|b| t > b.0).unwrap_or(true) {
+                    best = Some((t, p));
+                }
+            }
+        }
+        best.map(|b| b.1)
+    }
+
     /// compile `src` as crate `name` and run it: Ok(stdout) or Err(first error lines of rustc / run failure)
     pub fn compile_and_run(&self, name: &str, src: &str) -> Result<String, String> {
+        self.compile_and_run_with(name, src, &[])
+    }
+
+    /// the same with further `--extern krate=rlib` dependencies (looked up with dep_rlib)
+    pub fn compile_and_run_with(&self, name: &str, src: &str, externs: &[&str]) -> Result<String, String> {
         let f = self.dir.join(format!("{}.rs", name));
         let bin = self.dir.join(name);
         std::fs::write(&f, src).unwrap();
-        let o = Command::new("rustc")
+        let mut cmd = Command::new("rustc");
+        for k in externs {
+            match self.dep_rlib(k) {
+                Some(r) => {
+                    cmd.arg("--extern").arg(format!("{}={}", k, r.display()));
+                }
+                None => return Err(format!("no rlib of `{}` among the harness's dependencies", k)),
+            }
+        }
+        let o = cmd
             .arg("--edition=2021")
             .arg("--crate-type=bin")
             .arg("-C")
